@@ -235,10 +235,29 @@ func verifC16Race() {
 	if warm {
 		_, _ = r.Resolve(context.Background(), "o.example")
 	}
+	// optionally the upstream fails for the concurrent lookups (after an optional warm-up
+	// whose entries are then made to expire): a failure must never be shared as an answer
+	failing := vBool()
+	if failing {
+		clock += 1000
+		inner := dns.VerifHook_DoH
+		_ = inner
+		dns.VerifHook_DoH = func(ctx context.Context, msg *dns.Message, URL string) (*dns.Message, error) {
+			return &dns.Message{QR: 1, RCode: 2}, nil // SERVFAIL
+		}
+	}
 	done := make(chan int, 2)
 	for i := 0; i < 2; i++ {
 		go func() {
+			if failing {
+				// one cached lookup (the unit the cache works in): a failure is never an answer
+				_, lerr := r.resolveOne(context.Background(), "o.example", "A")
+				vAssert(lerr != nil, "while the upstream fails every concurrent lookup reports the failure (failures are never cached or shared)")
+			}
 			res, err := r.Resolve(context.Background(), "o.example")
+			if failing {
+				vAssert(err != nil, "while the upstream fails Resolve reports the failure")
+			}
 			n := 0
 			if err == nil {
 				for range res.Targets("tcp") {
